@@ -52,6 +52,28 @@ THIRD_ROUND_MISSES = {
  "C08-7": "caught by thorough only -> structured family `maxsize_backflow` (more than sys.maxsize units have to be pushed back along an edge) in the quick tier",
  "C20-8": "missed: electorates were tiny -> 15% of the bundles add a nearly tied electorate of 100 001 .. 200 003 voters for the scoring rules and Copeland",
 }
+FOURTH_ROUND_MISSES = {
+ "C02-10": "caught by thorough only: `resident_oriented is True` fails for a numpy bool -> in the worker processes every third construction of a library object per class (starting with the first) gets its bool arguments as numpy.bool_ (`install_flag_variation`)",
+ "C03-10": "missed: valuations were small -> kind `omit_huge`: distinct int64 valuations beyond 2^53 with the ordinal profiles omitted",
+ "C04-11": "missed: as C02-10 (numpy-bool `zero_indexed`)",
+ "C04-12": "missed: utilities were always a float array -> integer utilities without NaN stored as int64 / int32 / uint8 / uint16 / int8",
+ "C06-10": "missed: no entries just above the routine's own 1e-9 stop threshold -> kind `tiny_scaled` (dyadic weights in units of 2^-27 .. 2^-25)",
+ "C06-11": "not a C06 violation (the returned decomposition is right; the caller's matrix is overwritten when it is an ndarray subclass): caught by C20's check after the routine was added there with a valuation-profile view and a Fortran-ordered array as arguments",
+ "C08-10": "missed: capacities were Python ints -> family `int32_large` (capacities of the order 1e9 as numpy int32 scalars, no opposite pairs, where the clean code is exact)",
+ "C08-11": "missed: as C08-10 -> a quarter of the small-capacity networks have numpy integer labels and capacities",
+ "C08-12": "missed: networks were plain dicts with every vertex as a key -> a quarter are `collections.defaultdict(list)` without keys for vertices that have no outgoing edge",
+ "C11-11": "missed: C11 only used the pre-populated (zero-indexed) elicitor -> every other election is answered through a ONE-indexed callback elicitor",
+ "C12-10": "missed: m stopped at 40 -> two elections per run with 257 / 300 alternatives (more than a byte counts)",
+ "C13-10": "missed: the randomized rules' scores were only compared with the intercepted probabilities -> also with the textbook scores of the profile at hand",
+ "C13-12": "missed: matching / allocation instances started at n = 2 -> n = 1 included",
+ "C15-12": "missed: a fresh elicitor per run -> the two-sided rule is run twice on the same elicitor objects (a lambda sweep) and the counter must equal the number of forwarded questions afterwards",
+ "C16-12": "missed: the smallest valuation unit was 1e-10 -> 1e-13 and 1e-15 as well",
+ "C17-11": "missed: C17 did not drive the closed-subset stage directly -> `c03.run_closed` on random rotation posets inside C17's check",
+ "C18-11": "missed: seeds were Python ints -> odd seeds arrive as numpy integers",
+ "C19-12": "missed: every generated file carried a `# NUMBER VOTERS` line -> 15% of the files omit that (redundant) line",
+ "C20-10": "missed: break_tie was only called with a sorted array and 'random' -> also 'first' / 'accept' on an unsorted array",
+ "C20-11": "missed: positivity_graph was only called on exact matrices -> also on a matrix with 1e-17 residues and a negative zero",
+}
 rows = []
 for d in sorted(glob.glob(os.path.join(VERIF, "seeded", "C*-*"))):
     m = json.load(open(os.path.join(d, "meta.json")))
@@ -70,7 +92,7 @@ for d in sorted(glob.glob(os.path.join(VERIF, "seeded", "C*-*"))):
         fe = m.get("first_evaluation") or {}
         fq = (fe.get("caught_by_quick") or m["caught_by_quick"]).get(p)
         fa = (fe.get("caught_by_any_tier") or m["caught_by_any_tier"]).get(p)
-        first = SECOND_ROUND_MISSES.get(mid) or THIRD_ROUND_MISSES.get(mid) or ("caught by quick" if fq else ("caught by thorough only" if fa else "missed"))
+        first = SECOND_ROUND_MISSES.get(mid) or THIRD_ROUND_MISSES.get(mid) or FOURTH_ROUND_MISSES.get(mid) or ("caught by quick" if fq else ("caught by thorough only" if fa else "missed"))
     else:
         first = FIRST_ROUND_MISSES.get(mid, "caught by quick")
     rows.append(f"| {mid} | {m.get('round', 1)} | {summ} | {needs} | {now} | {first} |")
